@@ -33,10 +33,10 @@ class Plan:
 
 
 QUICK_THEORIES = {
-    "C01": ["poset", "semilattice", "pend", "diag", "misc", "enumt", "inherit", "branches", "joins"],
+    "C01": ["poset", "semilattice", "pend", "diag", "diagjoin", "misc", "enumt", "inherit", "branches", "joins"],
     "C02": ["poset", "semilattice", "pend", "diag", "misc", "enumt", "inherit", "joins"],
-    "C03": ["poset", "pend", "diag", "misc", "inherit", "trans_refl", "joins"],
-    "C04": ["poset", "semilattice", "diag", "misc", "enumt", "inherit", "joins"],
+    "C03": ["poset", "pend", "diag", "diagjoin", "misc", "inherit", "trans_refl", "joins"],
+    "C04": ["poset", "semilattice", "diag", "diagjoin", "misc", "enumt", "inherit", "joins"],
     "C05": ["poset", "semilattice", "diag", "misc", "enumt", "matches"],
     "C06": ["poset", "diag", "trans_refl", "branches", "logic"],
     "C07": ["poset", "semilattice", "pend", "misc", "inherit"],
